@@ -125,7 +125,12 @@ func zzLenPick(name string) int {
 // zzSeqAssumeClass constrains seq to one of the ten varint size classes (chosen by the explorer), so
 // that each path's encoder loop has a concrete trip count while the value stays symbolic inside it.
 func zzSeqClass(seq uint64) {
-	k := vChoose("seqclass", 11)
+	var k int
+	if vParam("c07.seqmode", 0) == 1 {
+		k = []int{0, 1, 2, 10}[vChoose("seqclass", 4)]
+	} else {
+		k = vChoose("seqclass", 11)
+	}
 	switch k {
 	case 0:
 		vAssume(seq == 0)
@@ -180,5 +185,213 @@ func zzH_C07pbq() {
 	vAssert(vEqBytes(got.Upgrade, req.Upgrade), "rt-upgrade")
 	vAssert(vEqString(got.ServiceMethod, req.ServiceMethod), "rt-method")
 	vAssert(vEqBytes(got.Args, req.Args), "rt-args")
+	vReach("end")
+}
+
+func zzScratch(size int) (scratch []byte, inPlace bool) {
+	switch vChoose("cap", 4) {
+	case 0:
+		return nil, false
+	case 1:
+		return vBufferN("scratch", size-1), false
+	case 2:
+		return vBufferN("scratch", size), true
+	}
+	return vBufferN("scratch", size+3), true
+}
+
+// zzH_C07pbr: default header encoder, response.
+func zzH_C07pbr() {
+	seq := vU64("seq")
+	zzSeqClass(seq)
+	res := &pbResponse{Seq: seq, Error: vStringN("err", zzLenPick("elen")), Reply: vBytesN("reply", zzLenPick("rlen"))}
+	size := res.Size()
+	scratch, inPlace := zzScratch(size)
+	stale := append([]byte(nil), scratch[:cap(scratch)]...)
+	buf := checkBuffer(scratch, size)
+	n, err := res.MarshalTo(buf)
+	vAssert(err == nil, "marshal-ok")
+	data := buf[:n]
+	vAssert(vEqBytes(data, zzRefPBResponse(res.Seq, res.Error, res.Reply)), "wire-format")
+	if inPlace {
+		vAssert(&buf[0] == &scratch[:1][0], "in-place")
+		vAssert(vEqBytes(scratch[size:cap(scratch)], stale[size:]), "no-write-past-size")
+	}
+	var got pbResponse
+	vAssert(got.Unmarshal(data) == nil, "unmarshal-ok")
+	vAssert(got.Seq == res.Seq, "rt-seq")
+	vAssert(vEqString(got.Error, res.Error), "rt-error")
+	vAssert(vEqBytes(got.Reply, res.Reply), "rt-reply")
+	vReach("end")
+}
+
+// zzH_C07gogo: the "pb" header encoder = GOGOPBCodec wrapper around pbRequest/pbResponse (both the
+// in-place path and the Marshal() fallback), reached through the Encoder interface.
+func zzH_C07gogo() {
+	enc := NewHeaderEncoder("pb")()
+	codec := enc.NewCodec()
+	seq := vU64("seq")
+	zzSeqClass(seq)
+	if vChoose("kind", 2) == 0 {
+		req := enc.NewRequest()
+		upg := vBytesN("upg", vChoose("upglen", 2))
+		method := vStringN("method", zzLenPick("mlen"))
+		args := vBytesN("args", zzLenPick("alen"))
+		req.SetSeq(seq)
+		req.SetUpgrade(upg)
+		req.SetServiceMethod(method)
+		req.SetArgs(args)
+		scratch, _ := zzScratch(req.(*pbRequest).Size())
+		data, err := codec.Marshal(scratch, req)
+		vAssert(err == nil, "marshal-ok")
+		vAssert(vEqBytes(data, zzRefPBRequest(seq, upg, method, args)), "wire-format")
+		got := enc.NewRequest()
+		got.Reset()
+		vAssert(codec.Unmarshal(data, got) == nil, "unmarshal-ok")
+		vAssert(got.GetSeq() == seq && vEqBytes(got.GetUpgrade(), upg) && vEqString(got.GetServiceMethod(), method) && vEqBytes(got.GetArgs(), args), "round-trip")
+	} else {
+		res := enc.NewResponse()
+		errText := vStringN("err", zzLenPick("elen"))
+		reply := vBytesN("reply", zzLenPick("rlen"))
+		res.SetSeq(seq)
+		res.SetError(errText)
+		res.SetReply(reply)
+		scratch, _ := zzScratch(res.(*pbResponse).Size())
+		data, err := codec.Marshal(scratch, res)
+		vAssert(err == nil, "marshal-ok")
+		vAssert(vEqBytes(data, zzRefPBResponse(seq, errText, reply)), "wire-format")
+		got := enc.NewResponse()
+		got.Reset()
+		vAssert(codec.Unmarshal(data, got) == nil, "unmarshal-ok")
+		vAssert(got.GetSeq() == seq && vEqString(got.GetError(), errText) && vEqBytes(got.GetReply(), reply), "round-trip")
+	}
+	vReach("end")
+}
+
+// zzH_C07codeq / coder: the "code" header encoder.
+func zzH_C07codeq() {
+	enc := NewHeaderEncoder("code")()
+	codec := enc.NewCodec()
+	seq := vU64("seq")
+	zzSeqClass(seq)
+	upg := vBytesN("upg", vChoose("upglen", 2))
+	method := vStringN("method", zzLenPick("mlen"))
+	args := vBytesN("args", zzLenPick("alen"))
+	req := enc.NewRequest()
+	req.SetSeq(seq)
+	req.SetUpgrade(upg)
+	req.SetServiceMethod(method)
+	req.SetArgs(args)
+	size := 40 + len(upg) + len(method) + len(args)
+	scratch, inPlace := zzScratch(size)
+	stale := append([]byte(nil), scratch[:cap(scratch)]...)
+	data, err := codec.Marshal(scratch, req)
+	vAssert(err == nil, "marshal-ok")
+	vAssert(vEqBytes(data, zzRefCodeRequest(seq, upg, method, args)), "wire-format")
+	if inPlace {
+		vAssert(&data[:1][0] == &scratch[:1][0], "in-place")
+		vAssert(vEqBytes(scratch[size:cap(scratch)], stale[size:]), "no-write-past-size")
+	}
+	got := enc.NewRequest()
+	got.Reset()
+	vAssert(codec.Unmarshal(data, got) == nil, "unmarshal-ok")
+	vAssert(got.GetSeq() == seq, "rt-seq")
+	vAssert(vEqBytes(got.GetUpgrade(), upg), "rt-upgrade")
+	vAssert(vEqString(got.GetServiceMethod(), method), "rt-method")
+	vAssert(vEqBytes(got.GetArgs(), args), "rt-args")
+	vReach("end")
+}
+
+func zzH_C07coder() {
+	enc := NewHeaderEncoder("code")()
+	codec := enc.NewCodec()
+	seq := vU64("seq")
+	zzSeqClass(seq)
+	errText := vStringN("err", zzLenPick("elen"))
+	reply := vBytesN("reply", zzLenPick("rlen"))
+	res := enc.NewResponse()
+	res.SetSeq(seq)
+	res.SetError(errText)
+	res.SetReply(reply)
+	size := 30 + len(errText) + len(reply)
+	scratch, inPlace := zzScratch(size)
+	stale := append([]byte(nil), scratch[:cap(scratch)]...)
+	data, err := codec.Marshal(scratch, res)
+	vAssert(err == nil, "marshal-ok")
+	vAssert(vEqBytes(data, zzRefCodeResponse(seq, errText, reply)), "wire-format")
+	if inPlace {
+		vAssert(&data[:1][0] == &scratch[:1][0], "in-place")
+		vAssert(vEqBytes(scratch[size:cap(scratch)], stale[size:]), "no-write-past-size")
+	}
+	got := enc.NewResponse()
+	got.Reset()
+	vAssert(codec.Unmarshal(data, got) == nil, "unmarshal-ok")
+	vAssert(got.GetSeq() == seq, "rt-seq")
+	vAssert(vEqString(got.GetError(), errText), "rt-error")
+	vAssert(vEqBytes(got.GetReply(), reply), "rt-reply")
+	vReach("end")
+}
+
+// zzH_C07glue: clientCodec.WriteRequest hands WriteMessage exactly the encoder's bytes and
+// serverCodec.ReadRequestHeader / WriteResponse / clientCodec.ReadResponseHeader carry every field,
+// for pool buffers smaller and larger than the message, under each header encoder.
+func zzH_C07glue() {
+	var enc Encoder
+	switch vChoose("encoder", 3) {
+	case 1:
+		enc = NewHeaderEncoder("pb")()
+	case 2:
+		enc = NewHeaderEncoder("code")()
+	}
+	bufSize := []int{8, 64, 512}[vChoose("bufsize", 3)]
+	cm := newZZMsgs(4)
+	cm.yieldW = false
+	sm := newZZMsgs(4)
+	sm.yieldW = false
+	cc := NewClientCodec(&BYTESCodec{}, enc, cm, bufSize)
+	sc := NewServerCodec(&BYTESCodec{}, enc, sm, true, bufSize)
+	seq := vU64("seq")
+	zzSeqClass(seq)
+	method := vStringN("method", zzLenPick("mlen"))
+	args := vBytesN("args", zzLenPick("alen"))
+	u := &upgrade{}
+	var upgBytes []byte
+	if vChoose("upg", 2) == 1 {
+		u.NoResponse = noResponse
+		upgBytes, _ = u.Marshal(nil)
+	}
+	ctx := &Context{Seq: seq, Upgrade: upgBytes, ServiceMethod: method, upgrade: u}
+	vAssert(cc.WriteRequest(ctx, &args) == nil, "write-request-ok")
+	vAssert(len(cm.writes) == 1, "one-frame")
+	frame := cm.writes[0]
+	if enc == nil || vChoose("encoder-is-pb", 1) == 0 && false {
+		vAssert(vEqBytes(frame, zzRefPBRequest(seq, upgBytes, method, args)), "request-bytes")
+	}
+	// server side decodes the frame
+	sctx := &Context{data: frame}
+	vAssert(sc.ReadRequestHeader(sctx) == nil, "read-header-ok")
+	vAssert(sctx.Seq == seq, "hdr-seq")
+	vAssert(vEqString(sctx.ServiceMethod, method), "hdr-method")
+	vAssert(vEqBytes(sctx.Upgrade, upgBytes), "hdr-upgrade")
+	vAssert(vEqBytes(sctx.value, args), "hdr-args")
+	// response path
+	reply := vBytesN("reply", zzLenPick("rlen"))
+	rctx := &Context{Seq: seq, upgrade: &upgrade{}}
+	errText := ""
+	if vChoose("witherr", 2) == 1 {
+		errText = vStringN("err", 1+vChoose("elen", 2)*126)
+		rctx.Error = errText
+	}
+	vAssert(sc.WriteResponse(rctx, &reply) == nil, "write-response-ok")
+	vAssert(len(sm.writes) == 1, "one-response-frame")
+	cctx := &Context{data: sm.writes[0]}
+	vAssert(cc.ReadResponseHeader(cctx) == nil, "read-response-ok")
+	vAssert(cctx.Seq == seq, "res-seq")
+	vAssert(vEqString(cctx.Error, errText), "res-error")
+	if errText == "" {
+		vAssert(vEqBytes(cctx.value, reply), "res-reply")
+	} else {
+		vAssert(len(cctx.value) == 0, "res-no-reply-on-error")
+	}
 	vReach("end")
 }
